@@ -72,7 +72,8 @@ def gen_prog_tl(seed, tier):
     orders = [["insertion", 0], ["reverse", 0], ["seeded", fl.randrange(1 << 32)], ["hash", 0]]
     if tier == "quick":
         orders = [orders[2], orders[fl.choice([0, 1, 3])]]
-    return {"kind": "prog_tl", "prog": prog, "clocks": clocks, "steps": steps, "orders": orders}
+    return {"kind": "prog_tl", "prog": prog, "clocks": clocks, "steps": steps, "orders": orders,
+            "add_order": fl.choice([0, fl.randrange(1, 1 << 30)])}
 
 
 def gen_case_i(seed, tier, index):
@@ -161,7 +162,7 @@ def gen_case(seed, tier):
                     tbs[i] = tbs[i][:j] + tbs[i][j + 1:]
                 else:
                     tbs[i] = tbs[i][:j]
-    return {"config": config, "tbs": tbs, "orders": orders, "steps": []}
+    return {"config": config, "tbs": tbs, "orders": orders, "steps": [], "add_order": fl.choice([0, 0, fl.randrange(1, 1 << 30)])}
 
 
 # ====================================================================================================================
@@ -523,6 +524,9 @@ def simulate(case, order):
     with scheduler(order[0], order[1]) as S:
         top, s, procs = build(config)
         sim = Simulator(top)
+        import random as _random
+        shuf = _random.Random(case.get("add_order", 0))
+        adders = []
         for dom in ("d1", "d2"):
             d = config[dom]
             if d is None:
@@ -530,9 +534,14 @@ def simulate(case, order):
             kw = {}
             if d["phase"] is not None:
                 kw["phase"] = Period(fs=d["phase"])
-            sim.add_clock(Period(fs=d["period"]), domain=dom, **kw)
+            adders.append(lambda dom=dom, d=d, kw=kw: sim.add_clock(Period(fs=d["period"]), domain=dom, **kw))
         for p in procs:
-            sim.add_process(p)
+            adders.append(lambda p=p: sim.add_process(p))
+        # the order in which clocks and processes are added must not matter
+        if case.get("add_order"):
+            shuf.shuffle(adders)
+        for a in adders:
+            a()
         regs = {"r1": s.r1, "r2": s.r2}
 
         def snapshot(ctx):
@@ -640,7 +649,11 @@ def run_prog_tl(case):
                     m.submodules.dut = B.top
                     return m
             sim = Simulator(Top())
-            for d in doms:
+            import random as _random
+            dl = list(doms)
+            if case.get("add_order"):
+                _random.Random(case["add_order"]).shuffle(dl)      # the order in which clocks are added must not matter
+            for d in dl:
                 c = case["clocks"][d["name"]]
                 kw = {"phase": Period(fs=c["phase"])} if c["phase"] is not None else {}
                 sim.add_clock(Period(fs=c["period"]), domain=cds[d["name"]], **kw)
